@@ -10,6 +10,7 @@ import (
 
 var (
 	tyOAB   = gen.Obj(gen.F("a", gen.Num), gen.F("b", gen.Str))
+	tyOAC   = gen.Obj(gen.F("a", gen.Num), gen.F("c", gen.Str))
 	tyOBA   = gen.Obj(gen.F("b", gen.Str), gen.F("a", gen.Num))
 	tyLNum  = gen.List(gen.Num)
 	tyLStr  = gen.List(gen.Str)
@@ -39,6 +40,7 @@ func strs(xs ...string) []*ref.V {
 }
 
 func oab(a float64, b string) *ref.V { return ref.ObjV([]string{"a", "b"}, ref.NumV(a), ref.StrV(b)) }
+func oac(a float64, c string) *ref.V { return ref.ObjV([]string{"a", "c"}, ref.NumV(a), ref.StrV(c)) }
 func oba(a float64, b string) *ref.V { return ref.ObjV([]string{"b", "a"}, ref.StrV(b), ref.NumV(a)) }
 
 // pool returns the boundary values of a type (full = the large sets).
